@@ -16,9 +16,12 @@ import (
 	"github.com/ipfs/go-cid"
 	"github.com/ipld/go-ipld-prime/datamodel"
 
+	"github.com/ucan-wg/go-ucan/did"
 	"github.com/ucan-wg/go-ucan/pkg/args"
+	"github.com/ucan-wg/go-ucan/pkg/command"
 	"github.com/ucan-wg/go-ucan/pkg/container"
 	"github.com/ucan-wg/go-ucan/pkg/policy"
+	"github.com/ucan-wg/go-ucan/pkg/policy/selector"
 	"github.com/ucan-wg/go-ucan/token"
 	"github.com/ucan-wg/go-ucan/token/delegation"
 	"github.com/ucan-wg/go-ucan/token/invocation"
@@ -78,6 +81,7 @@ type WStep struct {
 	Check *CheckSpec `json:"check,omitempty"`
 	Probe *ProbeSpec `json:"probe,omitempty"`
 	Torn  int        `json:"torn_permille,omitempty"`
+	N     int        `json:"n,omitempty"` // churn: how many unrelated values of each kind
 }
 
 type WorldPlan struct {
@@ -489,6 +493,37 @@ func (w *worldExec) step(s *WStep) {
 			time.Sleep(time.Duration(d))
 		}
 		o.Logf("tick now=%d", nowNS())
+	case "churn":
+		// a long-running process between two validations: N unrelated selectors, policies,
+		// commands, identifiers and tokens pass through the library (whatever it remembers of them
+		// must not change what the next validation sees)
+		guard(o, "churn", func() {
+			ent := w.cast.ent(0)
+			for i := 0; i < s.N; i++ {
+				_, _ = selector.Parse(fmt.Sprintf(".tenant%d.f[%d]", i, i%7))
+				_, _ = selector.Parse(fmt.Sprintf(".t%d?", i))
+				_, _ = policy.FromDagJson(fmt.Sprintf(`[["==", ".churn%d", %d], ["like", ".p%d", "a*%d"]]`, i, i, i, i))
+				_, _ = command.Parse(fmt.Sprintf("/churn/c%d", i))
+				raw := append([]byte{0xed, 0x01}, labelNonce(fmt.Sprint("churn-did", i), 32)...)
+				if d, err := did.Parse("did:key:z" + b58(raw)); err == nil {
+					_, _ = d.PubKey()
+				}
+				if i%8 == 0 {
+					// ... and whole tokens with policies of their own, sealed and read back
+					pol, perr := policy.FromDagJson(fmt.Sprintf(`[["==", ".owner%d", "x"]]`, i))
+					cmd, _ := command.Parse(fmt.Sprintf("/churn/t%d", i))
+					if perr == nil {
+						if tk, err := delegation.Root(ent.id, ent.id, cmd, pol, delegation.WithNonce(labelNonce(fmt.Sprint("churn-tok", i), 16))); err == nil {
+							if sealed, _, err := tk.ToSealed(ent.priv); err == nil {
+								_, _, _ = delegation.FromSealed(sealed)
+							}
+						}
+					}
+				}
+			}
+		})
+		o.Fault("process_churn")
+		o.Logf("churn n=%d", s.N)
 	case "delegate":
 		if s.Dlg != nil {
 			w.delegate(s.Dlg)
